@@ -6,10 +6,10 @@ import (
 	"encoding/xml"
 	"io"
 	"net/http"
-	"testing/iotest"
 	"net/url"
 	"reflect"
 	"strings"
+	"testing/iotest"
 
 	"github.com/gookit/rux"
 	"github.com/gookit/rux/pkg/render"
@@ -57,7 +57,7 @@ func c19Enc(vk int) (bool, bool) {
 
 var c19Helpers = []string{"text", "html", "json", "jsonbytes", "jsonp", "xml", "blob", "stream", "nocontent", "redirect", "httperror", "streamerr", "xmlindent"}
 var c19Renderers = []string{"text", "plain", "textbytes", "html", "htmlbytes", "blob", "json", "jsonindented", "jsonp", "xml", "xmlpretty"}
-var c19Statuses = []int{200, 201, 202, 400, 404, 500, 0, 302, 307, 299, 499, 520, 599}
+var c19Statuses = []int{200, 201, 202, 400, 404, 500, 0, 302, 307, 299, 499, 520, 599, 204, 304, 101, 200, 200}
 var c19Accepts = []string{"", "application/json", "text/xml, application/json", "text/plain, application/json", "application/xml", "text/xml", "text/html, text/plain",
 	"image/png", "image/png, text/plain;q=0.5", "*/*", "application/json;q=0.9, text/plain", " text/plain , application/xml", "text/html", ",,application/xml", "application/xml, text/html",
 	"text/csv;q=0.9, application/json", "*/*;q=0.1, text/xml", "image/png;q=1;level=2 , text/plain;q=0.5", "text/csv; q=0.9,text/html;q=0.8, application/json",
@@ -66,7 +66,7 @@ var c19Accepts = []string{"", "application/json", "text/xml, application/json", 
 func c19Gen(r *Rng, tier string, i int) Sx {
 	preset := A("none")
 	if r.Chance(1, 3) {
-		preset = S(r.Pick([]string{"application/custom", "text/csv; charset=utf-8"}))
+		preset = S(r.Pick([]string{"application/custom", "text/csv; charset=utf-8", "text/csv", "text/event-stream", "text/javascript", "text/xml", "text/x-json", "TEXT/plain"}))
 	}
 	vk := r.Intn(48)
 	encj, encx := c19Enc(vk)
@@ -76,7 +76,11 @@ func c19Gen(r *Rng, tier string, i int) Sx {
 	if i%4 == 2 {
 		return L(A("rdr"), A(r.Pick(c19Renderers)), I(vk), preset, B(encj), B(encx))
 	}
-	return L(A("h"), A(r.Pick(c19Helpers)), I(c19Statuses[r.Intn(len(c19Statuses))]), I(vk), preset, B(encj), B(encx))
+	h := L(A("h"), A(r.Pick(c19Helpers)), I(c19Statuses[r.Intn(len(c19Statuses))]), I(vk), preset, B(encj), B(encx))
+	if r.Chance(1, 4) { // an earlier handler has recorded another status (nothing written yet): the helper's status wins
+		h.List = append(h.List, I(r.Pick2([]int{500, 404, 204, 201, 401, 200})))
+	}
+	return h
 }
 
 func c19Decoded(helper string, v any, body []byte) Sx {
@@ -143,6 +147,9 @@ func c19Exec(c Sx) (out Sx) {
 		r.POST("/x", func(ctx *rux.Context) {
 			if c.List[4].Atom != "none" {
 				ctx.SetHeader("Content-Type", c.List[4].Str())
+			}
+			if len(c.List) > 7 {
+				ctx.SetStatus(c.List[7].Int())
 			}
 			switch helper {
 			case "text":
